@@ -368,6 +368,16 @@ EXTRA = [   # (program after the preamble, expected text) -- switches declared i
 for _nm in ('verified', 'diff', 'ifx', 'fiif', 'f', 'modified'):
     EXTRA.append((r'\newif\if%s \if%s A\else B\fi \%strue \if%s C\else D\fi \%sfalse \if%s E\else F\fi ' % ((_nm,) * 6), 'BCF'))
 EXTRA.append((r'\newif\ifdiff \newif\ifdf \difftrue \ifdf A\else B\fi \ifdiff C\else D\fi ', 'BC'))
+# a conditional that is expanded while a number or dimension is being scanned (inside a macro used as an operand)
+for _sw, _sv in ((r'\fizztrue ', 2), (r'\fizzfalse ', 0)):
+    for _inner, _val in ((r'\iffizz 2\else 0\fi ', _sv), (r'\ifnum 1<2 3\else 4\fi ', 3), (r'\ifx ab5\else 1\fi ', 1),
+                         (r'\ifcase 1 7\or 2\else 9\fi ', 2), (r'\ifodd 3 1\else 2\fi ', 1)):
+        for _outer, _fn in ((r'\ifnum 1<\zzq\relax A\else B\fi ', lambda v: 'A' if 1 < v else 'B'),
+                            (r'\ifnum\zzq=2\relax A\else B\fi ', lambda v: 'A' if v == 2 else 'B'),
+                            (r'\ifodd\zzq\relax A\else B\fi ', lambda v: 'A' if v % 2 else 'B'),
+                            (r'\ifcase\zzq\relax a\or b\or c\or d\else e\fi ', lambda v: 'abcd'[v] if 0 <= v <= 3 else 'e'),
+                            (r'\ifdim 1pt<\zzq pt\relax A\else B\fi ', lambda v: 'A' if 1 < v else 'B')):
+            EXTRA.append((_sw + r'\def\zzq{' + _inner + '}' + _outer + 'E', _fn(_val) + 'E'))
 # empty branches: a selected branch without any token must not fall through to another branch
 for _t, _v in ((r'\iftrue ', True), (r'\iffalse ', False), (r'\ifnum 1<2\relax ', True), (r'\ifx ab', False), (r'\ifodd 3\relax ', True),
                (r'\ifdefined\zzma ', True), (r'\ifdim 1pt>2pt\relax ', False)):
